@@ -4,7 +4,7 @@
    by such unwinders: the invariant is re-established by every call).  Then the relocated walk reports
    the same frames (a reported address that is itself a stack address moves with the stack), ends the
    same way, names the moved address in a read error, and leaves the SAME cache. *)
-From FH Require Import Consts Word X86 Unwinder DwarfRow Cfi X86Dwarf DwarfCb Macho MachoCb X86Unw WordFacts X86Exec ShiftFacts MachoWf ShiftFrame.
+From FH Require Import Consts Word X86 Unwinder DwarfRow Cfi X86Dwarf DwarfCb Macho MachoCb X86Unw WordFacts X86Exec ShiftFacts MachoWf ShiftFrame ShiftStatic.
 From Coq Require Import Lia ZifyBool ZifyN List.
 Import ListNotations.
 Open Scope N_scope.
@@ -51,29 +51,12 @@ Proof.
   - apply Hw.
 Qed.
 
-(* modules that answer with rules only *)
-Definition mod_rule_only (md : xmodule) : Prop :=
-  match mdat md with
-  | MNone => True
-  | MDwarf p sec => rows_compress sec
-  | MMacho d => forall rel first off,
-      macho_cui rule x86_macho_unwind JustReturn JustReturn x86_stub_helper_rule d rel first <> CuiNeedDwarf off
-  | MPe _ => False
-  end.
-
+(* unwinders whose callbacks answer every (module, role, address) they can be asked with a rule or a
+   state-independent error - the static classification of StaticFacts.v: modules without data, DWARF rows that
+   compress, compact-unwind entries (also those that defer to such DWARF rows), PE steps that compress into the pop
+   rule; NOT: DWARF rows with expressions, PE steps that interpret unwind codes *)
 Definition unw_rule_only (u : xunwinder) : Prop :=
-  forall x md rel, find_module mdata (mods _ u) x = Ok (Some (md, rel)) -> mod_rule_only md.
-
-Lemma cb_rel_rule_only md first rel rg rg' m :
-  mod_rule_only md -> rrel rg rg' -> vok rg -> spok rg ->
-  cb_rel (cb_x86 md first rel rg m) (cb_x86 md first rel rg' (shm m)).
-Proof.
-  unfold mod_rule_only. intros Hm Hr Hv Hs. destruct (mdat md) as [|p sec|pe|d] eqn:Ed.
-  - apply cb_rel_none; assumption.
-  - eapply cb_rel_dwarf; eassumption.
-  - contradiction.
-  - eapply cb_rel_macho; try eassumption. intros off. apply Hm.
-Qed.
+  forall x md rel first, find_module mdata (mods _ u) x = Ok (Some (md, rel)) -> static_ok_x86 md first rel.
 
 Lemma frame_cache_wf (u : xunwinder) c a rg rg' m :
   cache_wf c -> unw_rule_only u -> rrel rg rg' -> vok rg -> spok rg ->
@@ -85,7 +68,7 @@ Proof.
     destruct (cache_lookup_wf c x _ _ _ Hw Ec) as [Hw1 Hh].
   - destruct (exec_x r (negb (is_ra a)) rg m). exact Hw1.
   - destruct (find_module mdata (mods mdata u) x) as [[[md rel]|]|e|p|] eqn:Ef; cbn [o_cache]; try exact Hw1.
-    + pose proof (cb_rel_rule_only md (negb (is_ra a)) rel rg rg' m (Hu _ _ _ Ef) Hr Hv Hs) as [_ Hk].
+    + pose proof (cb_rel_static lo hi s md (negb (is_ra a)) rel rg rg' m (Hu _ _ _ _ Ef) Hr Hv Hs) as [_ Hk].
       destruct (cb_x86 md (negb (is_ra a)) rel rg m) as [k ef].
       destruct (cb_x86 md (negb (is_ra a)) rel rg' (shm m)) as [k' ef']. cbn [fst snd] in Hk.
       destruct k as [r|ra g|g|g|p|]; destruct k' as [r'|ra' g'|g'|g'|p'|]; try contradiction; cbn [o_cache].
@@ -146,7 +129,7 @@ Proof.
     { intros x r c1 _ Ec. destruct (cache_lookup_wf _ _ _ _ _ Hw Ec) as [_ Hh]. apply Hh. reflexivity. }
     assert (Hcb : forall x md rel, lookup_address a = Ok x -> find_module mdata (mods mdata u) x = Ok (Some (md, rel)) ->
               cb_rel (cb_x86 md (negb (is_ra a)) rel (i_regs _ _ it) m) (cb_x86 md (negb (is_ra a)) rel (i_regs _ _ it') (shm m))).
-    { intros x md rel _ Ef. apply cb_rel_rule_only; try assumption. exact (Hu _ _ _ Ef). }
+    { intros x md rel _ Ef. apply cb_rel_static; try assumption. exact (Hu _ _ _ _ Ef). }
     specialize (F Hhit Hcb). cbv zeta in F. destruct F as ((Rr & Rg & Rv & Rs) & Fc & _).
     pose proof (frame_cache_wf u (i_cache _ _ it) a (i_regs _ _ it) (i_regs _ _ it') m Hw Hu Hr Hv Hs) as Wc.
     change (unwind_frame rule regs mdata exec_x fallback_rule cb_x86) with unwind_frame_x.
@@ -213,9 +196,223 @@ Example walk_premises_hold :
     = [Ok (Some (IP 4194304)); Ok (Some (RA 4198400)); Ok (Some (RA 4202496)); Ok None].
 Proof.
   destruct shift_premises_hold as (_ & _ & _ & _ & Hr & Hv & Hs & _).
-  split; [intros x md rel H; cbn in H; discriminate H|].
+  split; [intros x md rel first H; cbn in H; discriminate H|].
   split; [unfold it_rel; cbn [ex_it iter_new i_state i_cache i_regs];
           exact (conj eq_refl (conj eq_refl (conj cache_new_wf (conj eq_refl (conj Hr (conj Hv Hs))))))|].
   split; [rewrite ex_walk; cbn [removelast]; repeat constructor | exact ex_walk].
+Qed.
+
+(* ------------------------------------------------------------------ aarch64: the same, with one more premise.
+   A rule that takes the return address from lr reads no memory, so nothing ties the new sp to the stack: that every
+   state of the ORIGINAL walk has its sp inside the stack (below the top of the address space, above the stack's low
+   end) is asked of the walk ([sp_ok_run]) instead of being derived. *)
+From FH Require Import A64 A64Dwarf A64Unw.
+Section WalkA.
+Variables lo hi s : N.
+Hypothesis Hlo : 2 * DIST <= lo.
+Hypothesis Hlh : lo <= hi.
+Hypothesis Hov : hi + s + 2 * DIST < W64.
+Variable k : N.
+Hypothesis Hmask : forall v, v <= hi + s -> strip k v = v.
+
+Notation sh := (sh lo hi s).
+Notation ptr := (ptr lo hi).
+Notation shm := (shm lo hi s).
+Notation arel := (arel lo hi s k).
+Notation avok := (avok lo hi s k).
+Notation aspok := (aspok lo s).
+Notation mem_ok_a := (mem_ok_a lo hi s k).
+Notation cb_rel_a := (cb_rel_a lo hi s k).
+
+Definition acache_wf (c : acache) : Prop :=
+  forall sl e, slots arule c sl = Some e -> arule_wf (e_rule arule e) = true.
+
+Lemma acache_new_wf : acache_wf (cache_new arule).
+Proof. intros sl e H. discriminate H. Qed.
+
+Lemma acache_lookup_wf c x g r c1 : acache_wf c -> cache_lookup arule c x g = (r, c1) ->
+  acache_wf c1 /\ (forall ru, r = Hit arule ru -> arule_wf ru = true).
+Proof.
+  intros Hw. unfold cache_lookup. cbv zeta.
+  destruct (slots arule c (x mod CACHE_ENTRY_COUNT)) as [e|] eqn:Es.
+  - destruct (e_gen arule e =? g); [destruct (e_addr arule e =? x)|]; intros H; inversion H; subst; (split; [exact Hw|]);
+      intros ru Hr; inversion Hr; subst. apply (Hw _ _ Es).
+  - intros H; inversion H; subst. split; [exact Hw|]. intros ru Hr; discriminate Hr.
+Qed.
+
+Lemma acache_insert_wf c sl a g r : acache_wf c -> arule_wf r = true -> acache_wf (cache_insert arule c sl a g r).
+Proof.
+  intros Hw Hr sl' e. unfold cache_insert. cbn [slots]. destruct (sl' =? sl).
+  - intros H; inversion H; subst. exact Hr.
+  - apply Hw.
+Qed.
+
+Definition aunw_rule_only (u : aunwinder) : Prop :=
+  forall x md rel first, find_module amdata (mods _ u) x = Ok (Some (md, rel)) -> static_ok_a64 md first rel.
+
+Lemma aframe_cache_wf (u : aunwinder) c a rg rg' m :
+  acache_wf c -> aunw_rule_only u -> arel rg rg' -> avok rg -> aspok rg ->
+  acache_wf (o_cache _ _ (unwind_frame_a u c a rg m)).
+Proof.
+  intros Hw Hu Hr Hv Hs. unfold unwind_frame_a, unwind_frame.
+  destruct (lookup_address a) as [x|e|p|]; cbn [o_cache]; try exact Hw.
+  destruct (cache_lookup arule c x (gen amdata u)) as [[r|slot] c1] eqn:Ec;
+    destruct (acache_lookup_wf c x _ _ _ Hw Ec) as [Hw1 Hh].
+  - destruct (aexec r (negb (is_ra a)) rg m). exact Hw1.
+  - destruct (find_module amdata (mods amdata u) x) as [[[md rel]|]|e|p|] eqn:Ef; cbn [o_cache]; try exact Hw1.
+    + pose proof (cb_rel_a_static lo hi s k md (negb (is_ra a)) rel rg rg' m (Hu _ _ _ _ Ef) Hr Hv Hs) as [_ Hk].
+      destruct (cb_a64 md (negb (is_ra a)) rel rg m) as [kk ef].
+      destruct (cb_a64 md (negb (is_ra a)) rel rg' (shm m)) as [kk' ef']. cbn [fst snd] in Hk.
+      destruct kk as [r|ra g|g|g|p|]; destruct kk' as [r'|ra' g'|g'|g'|p'|]; try contradiction; cbn [o_cache].
+      * destruct Hk as [_ Hwf]. destruct (aexec r (negb (is_ra a)) rg m). apply acache_insert_wf; assumption.
+      * destruct (aexec afallback_rule (negb (is_ra a)) g m). apply acache_insert_wf; [assumption | reflexivity].
+    + destruct (aexec afallback_rule (negb (is_ra a)) rg m). apply acache_insert_wf; [assumption | reflexivity].
+Qed.
+
+Definition afa_sh (f : faddr) : faddr := match f with IP a => IP (sh a) | RA a => RA (sh a) end.
+Definition aires_rel (r r' : res (option faddr)) : Prop :=
+  match r, r' with
+  | Ok None, Ok None => True
+  | Ok (Some f), Ok (Some f') => f' = afa_sh f
+  | Err e, Err e' => err_rel s e e'
+  | Panic p, Panic p' => p = p'
+  | Hang, Hang => True
+  | _, _ => False
+  end.
+Definition agood (r : res (option faddr)) : Prop :=
+  match r with Ok (Some f) => ptr (faddr_address f) = false | _ => False end.
+
+Definition aiter := Unwinder.iter arule aregs.
+
+Definition ait_rel (it it' : aiter) : Prop :=
+  i_state _ _ it' = i_state _ _ it /\ i_cache _ _ it' = i_cache _ _ it /\ acache_wf (i_cache _ _ it) /\
+  match i_state _ _ it with
+  | Done => True
+  | Initial pc => ptr pc = false /\ arel (i_regs _ _ it) (i_regs _ _ it') /\ avok (i_regs _ _ it)
+  | Unwinding _ => arel (i_regs _ _ it) (i_regs _ _ it') /\ avok (i_regs _ _ it)
+  end.
+
+(* the sp of every state the original walk goes through lies in the stack *)
+Definition st_sp_ok (it : aiter) : Prop :=
+  match i_state _ _ it with Done => True | _ => aspok (i_regs _ _ it) end.
+Fixpoint sp_ok_run (u : aunwinder) (m : mem) (it : aiter) (n : nat) : Prop :=
+  st_sp_ok it /\
+  match n with
+  | O => True
+  | S n' => sp_ok_run u m (snd (iter_next_a u m it)) n'
+  end.
+
+Lemma ash_noptr v : ptr v = false -> sh v = v.
+Proof. intros H. unfold ShiftFacts.sh. rewrite H. reflexivity. Qed.
+
+Lemma aiter_next_shift (u : aunwinder) m it it' :
+  mem_ok_a m -> aunw_rule_only u -> ait_rel it it' -> st_sp_ok it ->
+  let o := iter_next_a u m it in let o' := iter_next_a u (shm m) it' in
+  aires_rel (fst o) (fst o') /\ i_cache _ _ (snd o') = i_cache _ _ (snd o) /\ acache_wf (i_cache _ _ (snd o)) /\
+  (agood (fst o) -> ait_rel (snd o) (snd o')).
+Proof.
+  intros Hm Hu (Hst & Hc & Hw & Hx) Hsp. cbv zeta. unfold iter_next_a, iter_next. unfold st_sp_ok in Hsp. rewrite Hst, Hc.
+  destruct (i_state arule aregs it) as [pc|a|] eqn:Es.
+  - destruct Hx as (Hp & Hr & Hv). cbn [fst snd i_cache].
+    refine (conj _ (conj eq_refl (conj Hw _))).
+    + cbn. rewrite (ash_noptr _ Hp). reflexivity.
+    + intros _. unfold ait_rel. cbn [i_state i_cache i_regs].
+      exact (conj eq_refl (conj eq_refl (conj Hw (conj Hr Hv)))).
+  - destruct Hx as (Hr & Hv).
+    pose proof (unwind_frame_a_stack_shift lo hi s Hlo Hlh Hov k Hmask u (i_cache _ _ it) a (i_regs _ _ it) (i_regs _ _ it') m Hm Hr Hv Hsp) as F.
+    assert (Hhit : forall x r c1, lookup_address a = Ok x ->
+              cache_lookup arule (i_cache arule aregs it) x (gen amdata u) = (Hit arule r, c1) -> arule_wf r = true).
+    { intros x r c1 _ Ec. destruct (acache_lookup_wf _ _ _ _ _ Hw Ec) as [_ Hh]. apply Hh. reflexivity. }
+    assert (Hcb : forall x md rel, lookup_address a = Ok x -> find_module amdata (mods amdata u) x = Ok (Some (md, rel)) ->
+              cb_rel_a (cb_a64 md (negb (is_ra a)) rel (i_regs _ _ it) m) (cb_a64 md (negb (is_ra a)) rel (i_regs _ _ it') (shm m))).
+    { intros x md rel _ Ef. apply cb_rel_a_static; try assumption. exact (Hu _ _ _ _ Ef). }
+    specialize (F Hhit Hcb). cbv zeta in F. destruct F as ((Rr & Rg & Rv) & Fc & _).
+    pose proof (aframe_cache_wf u (i_cache _ _ it) a (i_regs _ _ it) (i_regs _ _ it') m Hw Hu Hr Hv Hsp) as Wc.
+    change (unwind_frame arule aregs amdata aexec afallback_rule cb_a64) with unwind_frame_a.
+    destruct (unwind_frame_a u (i_cache arule aregs it) a (i_regs arule aregs it) m) as [q g c2 ef].
+    destruct (unwind_frame_a u (i_cache arule aregs it) a (i_regs arule aregs it') (shm m)) as [q' g' c2' ef'].
+    cbn [o_res o_regs o_cache fst snd] in *. subst c2'.
+    destruct q as [[ra|]|e|p|]; destruct q' as [[ra'|]|e'|p'|]; cbn in Rr; try contradiction;
+      cbn [fst snd i_cache];
+      try (refine (conj _ (conj eq_refl (conj Wc _))); [cbn; try exact Rr; try exact I | intros G; contradiction G]).
+    destruct Rr as [-> Hok]. unfold from_return_address. rewrite (sh_zero lo hi s Hlo Hlh Hov ra Hok).
+    destruct (ra =? 0) eqn:Ez; cbn [fst snd i_cache].
+    + refine (conj _ (conj eq_refl (conj Wc _))); [cbn; left; reflexivity | intros G; contradiction G].
+    + refine (conj _ (conj eq_refl (conj Wc _))); [cbn; reflexivity|].
+      intros G. cbn in G. unfold ait_rel. cbn [i_state i_cache i_regs]. rewrite (ash_noptr _ G).
+      exact (conj eq_refl (conj eq_refl (conj Wc (conj Rg Rv)))).
+  - cbn [fst snd]. refine (conj I (conj Hc (conj Hw _))). intros G; contradiction G.
+Qed.
+
+Lemma aiter_run_length (u : aunwinder) m : forall n it, length (fst (iter_run_a u m it n)) = n.
+Proof.
+  induction n as [|n IH]; intros it; [reflexivity|]. unfold iter_run_a in *. cbn [iter_run].
+  destruct (iter_next arule aregs amdata aexec afallback_rule cb_a64 u m it) as [r it1].
+  specialize (IH it1). destruct (iter_run arule aregs amdata aexec afallback_rule cb_a64 u m it1 n) as [rs it2].
+  cbn [fst length] in *. rewrite IH. reflexivity.
+Qed.
+
+Theorem iter_run_a_stack_shift (u : aunwinder) m : mem_ok_a m -> aunw_rule_only u -> forall n it it',
+  ait_rel it it' -> sp_ok_run u m it n ->
+  Forall agood (removelast (fst (iter_run_a u m it n))) ->
+  Forall2 aires_rel (fst (iter_run_a u m it n)) (fst (iter_run_a u (shm m) it' n)) /\
+  i_cache _ _ (snd (iter_run_a u (shm m) it' n)) = i_cache _ _ (snd (iter_run_a u m it n)).
+Proof.
+  intros Hm Hu. induction n as [|n IH]; intros it it' Hi Hs Hg.
+  - cbn. split; [constructor | destruct Hi as (_ & Hc & _); exact Hc].
+  - destruct Hs as [Hs0 Hs1].
+    pose proof (aiter_next_shift u m it it' Hm Hu Hi Hs0) as N. cbv zeta in N.
+    pose proof (aiter_run_length u m n) as L. pose proof (aiter_run_length u (shm m) n) as L'.
+    unfold iter_run_a, iter_next_a in *. cbn [iter_run] in *.
+    destruct (iter_next arule aregs amdata aexec afallback_rule cb_a64 u m it) as [r it1].
+    destruct (iter_next arule aregs amdata aexec afallback_rule cb_a64 u (shm m) it') as [r' it1'].
+    cbn [fst snd] in N, Hs1. destruct N as (Nr & Nc & Nw & Ng).
+    specialize (IH it1 it1'). specialize (L it1). specialize (L' it1').
+    destruct n as [|n].
+    + cbn [iter_run fst snd] in *. split; [constructor; [exact Nr | constructor] | exact Nc].
+    + destruct (iter_run arule aregs amdata aexec afallback_rule cb_a64 u m it1 (S n)) as [rs it2].
+      destruct (iter_run arule aregs amdata aexec afallback_rule cb_a64 u (shm m) it1' (S n)) as [rs' it2'].
+      cbn [fst snd] in *.
+      destruct rs as [|r2 rs]; [discriminate L|].
+      cbn [removelast] in Hg. inversion Hg as [|? ? G1 G2]; subst.
+      destruct (IH (Ng G1) Hs1 G2) as [I1 I2]. split; [constructor; assumption | exact I2].
+Qed.
+End WalkA.
+
+(* non-vacuity on aarch64: the same two-record stack, no pointer authentication bits in use *)
+Definition ex_ua : aunwinder := mkunw amdata [] 0.
+Definition ex_aregs (d : N) : aregs := mkaregs mask_no_strip 4194308 (2147352576 + d) (2147352576 + 16 + d).
+Definition ex_ait (d : N) : aiter := iter_new arule aregs 4194304 (ex_aregs d) (cache_new arule).
+Lemma ex_mask v : v <= ex_hi + ex_s -> strip mask_no_strip v = v.
+Proof.
+  intros H. unfold strip, mask_no_strip, MAX64. change 18446744073709551615 with (N.ones 64).
+  rewrite N.land_ones. apply N.mod_small. unfold ex_hi, ex_s in H. lia.
+Qed.
+Lemma ex_mem_ok_a : mem_ok_a ex_lo ex_hi ex_s mask_no_strip (mem_of_list ex_cells).
+Proof.
+  split; [exact ex_mem_ok|]. intros a v H. apply mem_of_list_In in H. cbn in H.
+  repeat (destruct H as [H|H]; [inversion H; subst; vm_compute; reflexivity|]). contradiction.
+Qed.
+Lemma ex_awalk : fst (iter_run_a ex_ua (mem_of_list ex_cells) (ex_ait 0) 3)
+    = [Ok (Some (IP 4194304)); Ok (Some (RA 4198400)); Ok None].
+Proof. vm_compute; reflexivity. Qed.
+Example walk_a_premises_hold :
+  (forall v, v <= ex_hi + ex_s -> strip mask_no_strip v = v) /\
+  mem_ok_a ex_lo ex_hi ex_s mask_no_strip (mem_of_list ex_cells) /\ aunw_rule_only ex_ua /\
+  ait_rel ex_lo ex_hi ex_s mask_no_strip (ex_ait 0) (ex_ait ex_s) /\
+  sp_ok_run ex_lo ex_s ex_ua (mem_of_list ex_cells) (ex_ait 0) 3 /\
+  Forall (agood ex_lo ex_hi) (removelast (fst (iter_run_a ex_ua (mem_of_list ex_cells) (ex_ait 0) 3))) /\
+  fst (iter_run_a ex_ua (mem_of_list ex_cells) (ex_ait 0) 3) = [Ok (Some (IP 4194304)); Ok (Some (RA 4198400)); Ok None].
+Proof.
+  split; [exact ex_mask|]. split; [exact ex_mem_ok_a|].
+  split; [intros x md rel first H; cbn in H; discriminate H|].
+  split.
+  { unfold ait_rel. cbn [ex_ait iter_new i_state i_cache i_regs].
+    refine (conj eq_refl (conj eq_refl (conj acache_new_wf (conj eq_refl (conj _ _))))).
+    - unfold ShiftFacts.arel. cbn. repeat split; vm_compute; reflexivity.
+    - unfold ShiftFacts.avok. split; vm_compute; reflexivity. }
+  split.
+  { cbn [sp_ok_run]. unfold st_sp_ok, ShiftFrame.aspok. vm_compute. repeat split; try discriminate; try exact I. }
+  split; [rewrite ex_awalk; cbn [removelast]; repeat constructor | exact ex_awalk].
 Qed.
 
